@@ -50,6 +50,13 @@ W = {
     "repeats": 0.3,       # repeats, endings, barline fermatas
     "groups": 0.5,        # part groups (nested)
     "parts": 0.5,         # more than one part
+    "sym": 0.25,          # explicit symbolic duration (type, dots, tuplet ratio) on a note/rest, also one that
+                          # does not match the numeric duration
+    "xtie": 0.35,         # per part: extra ties between ANY note ending at a segment/measure boundary and any
+                          # note starting there (other voice, other staff, non-first chord member)
+    "pedal": 0.15,        # share of the directions that are sustain pedals (line / sign), also over barlines
+    "staves3": 0.1,       # three staves
+    "deepgroups": 0.5,    # of the scores with groups: 3-5 parts, groups nested two deep, sibling groups
     # constructs that hit a KNOWN FINDING (kept rare; see findings.d/C03.json)
     "k_words": 0.04,      # K1: an unparsed text direction (score.Words) is not exported
     "k_nopoint": 0.04,    # K2: divisions change inside a measure at a time without a TimePoint
@@ -65,7 +72,14 @@ STEP_PC = {"C": 0, "D": 2, "E": 4, "F": 5, "G": 7, "A": 9, "B": 11}
 ARTICULATIONS = ["accent", "breath-mark", "caesura", "detached-legato", "doit", "falloff", "plop", "scoop",
                  "spiccato", "staccatissimo", "staccato", "stress", "strong-accent", "tenuto", "unstress"]
 DYNAMICS = ["f", "ff", "p", "pp", "mf", "mp", "sfz", "fp", "fz"]
-WORDS = ["cresc.", "dim.", "rit.", "accel.", "Allegro", "adagio", "dolce", "a tempo"]
+# every class parse_direction can produce (dynamic/constant/impulsive loudness, tempo, articulation, reset tempo,
+# plain Direction, compound texts, two directions from one text, a metronome text)
+WORDS = ["cresc.", "dim.", "rit.", "accel.", "Allegro", "adagio", "dolce", "a tempo",
+         "staccato", "legato", "forte", "piano", "molto cresc.", "Allegro molto", "tempo I", "poco a poco cresc.",
+         "Andante", "rall.", "smorzando", "a tempo, dolce", "Presto", "rubato", "rinforzando", "piu f", "tenuto",
+         "Allegro ma non troppo", "calando"]
+DASHABLE = ("cresc.", "dim.", "rit.", "accel.", "rall.", "smorzando", "calando", "molto cresc.", "poco a poco cresc.")
+SYMTYPES = ["whole", "half", "quarter", "eighth", "16th", "32nd"]
 TAGORDER = {"barline": 0, "attributes": 1, "direction": 2, "print": 3, "sound": 4, "harmony": 5}
 
 
@@ -104,6 +118,13 @@ def note_attrs(rng, o):
             o["stem"] = rng.choice(["up", "down"])
         if rng.random() < 0.15 and o["k"] != "grace":
             o["ferm"] = True
+    if o["k"] != "grace" and rng.random() < W["sym"]:
+        sd = {"type": rng.choice(SYMTYPES)}
+        if rng.random() < 0.5:
+            sd["dots"] = rng.choice([1, 1, 2, 3])
+        if rng.random() < 0.4:
+            sd["actual_notes"], sd["normal_notes"] = rng.choice([(3, 2), (5, 4), (6, 4), (2, 3), (7, 8)])
+        o["sym"] = sd
 
 
 def gen_voice_segment(rng, ids, objs, s, e, voice, staff, pending, poly, last_seg, ties_open, force_first=False, mi=0, next_mi=0):
@@ -195,11 +216,13 @@ def gen_voice_segment(rng, ids, objs, s, e, voice, staff, pending, poly, last_se
     return out_pending
 
 
-def gen_part(rng, ids, pid):
+def gen_part(rng, ids, pid, small=False):
     q = rng.choice([1, 2, 4, 4, 6, 8, 12, 16, 24])
     ts = rng.choice([(4, 4), (3, 4), (2, 4), (6, 8), (5, 8), (2, 2), (3, 8)])
-    nm = rng.randint(1, 4)
+    nm = rng.randint(1, 2 if small else 4)
     nstaves = 2 if rng.random() < W["staves"] else 1
+    if nstaves == 2 and rng.random() < W["staves3"] / max(W["staves"], 1e-9):
+        nstaves = 3
     nvoices = rng.randint(2, 4) if rng.random() < W["voices"] else 1
     poly = rng.random() < W["uneven"] * 2
     part = {"id": pid, "name": rng.choice(["Piano", "Violin I", None, "Vc."]),
@@ -273,7 +296,7 @@ def gen_part(rng, ids, pid):
     # notes
     ties_open = []
     for v in range(1, nvoices + 1):
-        staff = 1 if nstaves == 1 else (1 if v <= (nvoices + 1) // 2 else 2)
+        staff = min(nstaves, 1 + ((v - 1) * nstaves) // nvoices)
         pending = None
         for si, (s, e, qs, mi) in enumerate(segments):
             # a divisions change needs a TimePoint at its time for the exporter to split there (K2):
@@ -282,7 +305,74 @@ def gen_part(rng, ids, pid):
                                         si == len(segments) - 1, ties_open,
                                         force_first=(v == 1 and not nopoint), mi=mi,
                                         next_mi=segments[si + 1][3] if si + 1 < len(segments) else mi)
+    if rng.random() < W["xtie"]:
+        extra_ties(rng, part, segments, ties_open)
     return part, segments
+
+
+def extra_ties(rng, part, segments, ties_open):
+    """Ties between ANY note that ends at a segment boundary and ANY note that starts there: another voice or
+    staff, a non-first chord member, a note the exporter will move to a free voice.  The second note takes the
+    pitch of the first.  Kept inside the quantifier: two ties of one pitch never touch the same measure."""
+    objs = part["objs"]
+    seg_mi = {s: mi for (s, e, q, mi) in segments}
+    end_mi = {e: mi for (s, e, q, mi) in segments}
+    tied_from = {o["a"] for o in objs if o["k"] == "tie"}
+    tied_to = {o["b"] for o in objs if o["k"] == "tie"}
+    grace_main = {o["next"] for o in objs if o["k"] == "grace" and o.get("next")}
+    notes = [o for o in objs if o["k"] == "note"]
+    for _ in range(rng.randint(1, 3)):
+        bounds = sorted(set(seg_mi) & set(end_mi))
+        if not bounds:
+            return
+        T = rng.choice(bounds)
+        A = [o for o in notes if o["e"] == T and o["t"] < T and o["id"] not in tied_from and o["id"] not in tied_to]
+        B = [o for o in notes if o["t"] == T and o["e"] > T and o["id"] not in tied_from and o["id"] not in tied_to
+             and not any(x["t"] == T and x["voice"] == o["voice"] and x["id"] in grace_main for x in notes)]
+        if not A or not B:
+            continue
+        a, b = rng.choice(A), rng.choice(B)
+        mp = midi_of(a["step"], a["alter"], a["oct"])
+        lo, hi = end_mi[T], seg_mi[T]
+        if any(mp == p and x <= hi and lo <= y for (p, x, y) in ties_open):
+            continue
+        # the chord b belongs to must not already hold this spelling
+        if any(o is not b and o["t"] == T and o["voice"] == b["voice"] and (o["step"], o["oct"]) == (a["step"], a["oct"]) for o in notes):
+            continue
+        b["step"], b["alter"], b["oct"] = a["step"], a["alter"], a["oct"]
+        ties_open.append((mp, lo, hi))
+        objs.append({"k": "tie", "a": a["id"], "b": b["id"], "x": True})
+        tied_from.add(a["id"])
+        tied_to.add(b["id"])
+
+
+def gen_struct(rng, nparts):
+    """part list structure: groups over consecutive parts, nested up to two deep, sibling groups"""
+    numbers = iter(range(1, 50))
+
+    def group(members, depth):
+        return {"g": members, "symbol": rng.choice(["brace", "bracket", "line", None]),
+                "name": rng.choice(["Strings", "Winds", "inner", None]), "number": next(numbers)}
+
+    def build_level(items, depth):
+        # wrap some runs of consecutive items into groups; recurse into the group
+        out = []
+        i = 0
+        while i < len(items):
+            if depth < 3 and rng.random() < (0.7 if depth == 0 else 0.45):
+                n = rng.randint(1, len(items) - i)
+                out.append(group(build_level(items[i:i + n], depth + 1), depth))
+                i += n
+            else:
+                out.append(items[i])
+                i += 1
+        return out
+
+    for _ in range(20):
+        st = build_level(list(range(nparts)), 0)
+        if any(isinstance(x, dict) for x in st):
+            return st
+    return [group(list(range(nparts)), 0)]
 
 
 def gen_spec(rng):
@@ -290,14 +380,20 @@ def gen_spec(rng):
     nparts = 1
     if rng.random() < W["parts"]:
         nparts = rng.randint(2, 3)
+    groups = rng.random() < W["groups"]
+    deep = groups and rng.random() < W["deepgroups"]
+    if deep:
+        nparts = rng.randint(3, 5)
     parts = []
     for i in range(nparts):
-        p, segs = gen_part(rng, ids, "P%d" % (i + 1))
+        p, segs = gen_part(rng, ids, "P%d" % (i + 1), small=deep)
         decorate_part(rng, ids, p, segs)
         parts.append(p)
     # part list structure: nested groups over consecutive parts
     struct = list(range(nparts))
-    if rng.random() < W["groups"]:
+    if deep:
+        struct = gen_struct(rng, nparts)
+    elif groups:
         a = rng.randint(0, nparts - 1)
         b = rng.randint(a, nparts - 1)
         inner = struct[a:b + 1]
@@ -346,10 +442,17 @@ def decorate_part(rng, ids, part, segments):
         def free(a, b):
             return overlap_ok or all(b <= x or y <= a for (x, y) in ranges)
 
+        pedals = []      # the importer knows one pedal at a time (no number is written): pedals do not overlap
+
         for _ in range(rng.randint(1, 4)):
             t = rng.randrange(0, end)
             r = rng.random()
-            if r < 0.3:
+            if rng.random() < W["pedal"]:
+                e = rng.randint(t + 1, end)
+                if all(e <= x or y <= t for (x, y) in pedals):
+                    pedals.append((t, e))
+                    objs.append({"k": "dir", "kind": "pedal", "t": t, "e": e, "line": rng.random() < 0.5})
+            elif r < 0.3:
                 objs.append({"k": "dir", "kind": "dyn", "t": t, "text": rng.choice(DYNAMICS)})
             elif r < 0.55:
                 e = rng.randint(t + 1, end)
@@ -360,7 +463,7 @@ def decorate_part(rng, ids, part, segments):
                 o = {"k": "dir", "kind": "words", "t": t, "text": rng.choice(WORDS)}
                 if rng.random() < W["k_words"]:
                     o["text"] = "spaghetti"
-                if rng.random() < 0.4 and o["text"] in ("cresc.", "dim.", "rit.", "accel."):
+                if rng.random() < 0.4 and o["text"] in DASHABLE:
                     e = rng.randint(t + 1, end)      # dashes (only for dynamic directions)
                     if free(t, e):
                         ranges.append((t, e))
@@ -390,12 +493,20 @@ def decorate_part(rng, ids, part, segments):
         bounds = mstarts + [end]
         r = rng.random()
         if r < 0.5 and len(bounds) >= 2:
-            i = rng.randrange(len(bounds) - 1)
-            j = rng.randrange(i + 1, len(bounds))
-            objs.append({"k": "repeat", "t": bounds[i], "e": bounds[j]})
-            if j + 1 < len(bounds) and j - i >= 2 and rng.random() < 0.6:
+            if len(bounds) >= 4 and rng.random() < 0.6:
+                # repeat with first and second ending: |: ... [1 ... :| [2 ... |
+                i = rng.randrange(len(bounds) - 3)
+                j = rng.randrange(i + 2, len(bounds) - 1)
+                objs.append({"k": "repeat", "t": bounds[i], "e": bounds[j]})
                 objs.append({"k": "ending", "t": bounds[j - 1], "e": bounds[j], "n": 1})
                 objs.append({"k": "ending", "t": bounds[j], "e": bounds[j + 1], "n": 2})
+            else:
+                i = rng.randrange(len(bounds) - 1)
+                j = rng.randrange(i + 1, len(bounds))
+                objs.append({"k": "repeat", "t": bounds[i], "e": bounds[j]})
+                if j + 1 < len(bounds) and rng.random() < 0.5:       # a second repeat right after / later
+                    i2 = rng.randrange(j, len(bounds) - 1)
+                    objs.append({"k": "repeat", "t": bounds[i2], "e": bounds[rng.randrange(i2 + 1, len(bounds))]})
         elif rng.random() < W["k_fermata"] and len(bounds) > 2:
             objs.append({"k": "bferm", "t": rng.choice(bounds[1:-1]), "ref": "right"})     # K3
         elif rng.random() < 0.5:
@@ -494,6 +605,8 @@ def build(spec):
                     from partitura.io.importmusicxml import DYN_DIRECTIONS
                     d = DYN_DIRECTIONS[o["text"]](o["text"])
                     p.add(d, o["t"])
+                elif kind == "pedal":
+                    p.add(S.SustainPedalDirection(line=bool(o.get("line"))), o["t"], o["e"])
                 elif kind in ("wedge_c", "wedge_d"):
                     cls = S.IncreasingLoudnessDirection if kind == "wedge_c" else S.DecreasingLoudnessDirection
                     d = cls("crescendo" if kind == "wedge_c" else "diminuendo", wedge=True)
@@ -700,8 +813,19 @@ def _sym(n):
     return (sd.get("type"), sd.get("dots") or 0, sd.get("actual_notes"), sd.get("normal_notes"))
 
 
+def canon_divisions(rows):
+    """the divisions FUNCTION: change points whose value repeats the one in force are dropped"""
+    out = []
+    for t, q in rows:
+        if not out or out[-1][1] != int(q):
+            out.append((int(t), int(q)))
+    return out
+
+
 def fingerprint(scr, with_voice=True):
-    """dict path -> value; only what the property lists."""
+    """dict path -> value; only what the property lists.  Keys starting with "~" are attributes the statement
+    does NOT list (notehead, kind of grace note, grace-run links): they are compared for the evidence only
+    (counted, never a violation; a loss on the way in still shows as a byte difference in O3)."""
     import partitura.score as S
 
     fp = {}
@@ -716,7 +840,7 @@ def fingerprint(scr, with_voice=True):
         P = "part[%s]." % p.id
         fp[P + "name"] = p.part_name or None
         fp[P + "abbr"] = p.part_abbreviation or None
-        fp[P + "divisions"] = [(int(t), int(q)) for t, q in p.quarter_durations()]
+        fp[P + "divisions"] = canon_divisions(p.quarter_durations())
         fp[P + "measures"] = [(m.start.t, m.end.t, m.number, m.name) for m in p.iter_all(S.Measure)]
         fp[P + "timesigs"] = sorted((o.start.t, o.beats, o.beat_type) for o in p.iter_all(S.TimeSignature))
         fp[P + "keysigs"] = sorted((o.start.t, o.fifths, o.mode or None) for o in p.iter_all(S.KeySignature))
@@ -731,11 +855,11 @@ def fingerprint(scr, with_voice=True):
                 fp[N + "spelling"] = (n.step, n.alter or 0, n.octave)
             elif isinstance(n, S.UnpitchedNote):
                 fp[N + "spelling"] = (n.step, n.octave)
-                fp[N + "notehead"] = (n.notehead, bool(n.noteheadstyle) if n.notehead is not None else None)
+                fp["~" + N + "notehead"] = (n.notehead, bool(n.noteheadstyle) if n.notehead is not None else None)
             if isinstance(n, S.GraceNote):
-                fp[N + "grace_type"] = n.grace_type
-                fp[N + "grace_next"] = getattr(n.grace_next, "id", None)
-                fp[N + "grace_prev"] = getattr(n.grace_prev, "id", None)
+                fp["~" + N + "grace_type"] = n.grace_type
+                fp["~" + N + "grace_next"] = getattr(n.grace_next, "id", None)
+                fp["~" + N + "grace_prev"] = getattr(n.grace_prev, "id", None)
             if with_voice:
                 fp[N + "voice"] = n.voice
             fp[N + "staff"] = n.staff
@@ -766,9 +890,11 @@ def fingerprint(scr, with_voice=True):
     return fp
 
 
-def fp_diff(a, b, limit=6):
+def fp_diff(a, b, limit=6, unlisted=False):
     out = []
     for k in sorted(set(a) | set(b)):
+        if k.startswith("~") != unlisted:
+            continue
         if a.get(k, "<absent>") != b.get(k, "<absent>"):
             out.append((k, a.get(k, "<absent>"), b.get(k, "<absent>")))
             if len(out) >= limit:
@@ -898,6 +1024,8 @@ class Outcome:
         self.measure_cases = []
         self.part_cases = []
         self.nontrivial = False
+        self.unlisted_diffs = 0
+        self.unaligned = 0
 
 
 def check_spec(spec, want_coq=True):
@@ -949,7 +1077,9 @@ def check_spec(spec, want_coq=True):
                 if sorted(n.id for n in allnotes) == sorted(ids):
                     mc = measure_cases(part, wp, idmap, [t for t, q in ps["qchanges"]])
                     if mc is None:
-                        out.problems.append(("model", "part %s: cannot align written measures/segments with the score" % ps["id"]))
+                        # not judged here: a lost measure shows in O2 (measures), a <divisions> that is not written at
+                        # its time shows in O1 (durations in quarters); the part only gets no Coq measure cases
+                        out.unaligned += 1
                     else:
                         out.measure_cases.extend((ps["id"], i, c) for i, c in enumerate(mc))
                     out.part_cases.append((ps["id"], part_case(wp, idmap, exp)))
@@ -965,6 +1095,7 @@ def check_spec(spec, want_coq=True):
             return out
         for k, a, b in fp_diff(fp0, fp1):
             out.problems.append(("O2", "%s: before save %r, after load %r" % (k, a, b)))
+        out.unlisted_diffs = len(fp_diff(fp0, fp1, limit=1000, unlisted=True))
         # ---- O3
         try:
             data2 = save_musicxml(scr2)
@@ -1033,6 +1164,17 @@ def features_of(spec):
         for k in ("grace", "tie", "slur", "tuplet", "rest", "unp", "dir", "tempo", "repeat", "ending", "bferm"):
             if k in ks:
                 f.add(k)
+        for o in ps["objs"]:
+            if o["k"] == "dir":
+                f.add("dir:" + o["kind"] + ("+dashes" if o["kind"] == "words" and o.get("e") is not None else ""))
+            if o["k"] == "tie" and o.get("x"):
+                f.add("tie between any two notes (other voice / chord member)")
+            if o.get("sym") and o["k"] != "grace":
+                f.add("explicit symbolic duration" + (" with dots" if o["sym"].get("dots") else "") + (" with tuplet ratio" if o["sym"].get("actual_notes") else ""))
+        if sum(1 for o in ps["objs"] if o["k"] == "repeat") > 1:
+            f.add("two repeats")
+        if ps["nstaves"] > 2:
+            f.add("three staves")
         if ps["qchanges"]:
             f.add("divchange")
             ms = {m[0] for m in ps["measures"]}
@@ -1048,6 +1190,12 @@ def features_of(spec):
         f.add("multi-part")
     if any(isinstance(x, dict) for x in spec["struct"]):
         f.add("groups")
+
+        def depth(n):
+            return 0 if not isinstance(n, dict) else 1 + max([depth(c) for c in n["g"]] + [0])
+        f.add("groups nested %d deep" % max(depth(n) for n in spec["struct"]))
+        if sum(1 for x in spec["struct"] if isinstance(x, dict)) > 1:
+            f.add("sibling groups")
     return f
 
 
@@ -1076,7 +1224,7 @@ def register_matchers(ctx):
     ctx.matchers["C03-K1"] = lambda r: (r.get("kind") == "O2" and ".words:" in r.get("what", "") and "after load []" in r.get("what", "")
                                         and any(o["k"] == "dir" and o.get("text") == "spaghetti" for ps in spec_parts(r) for o in ps["objs"]))
     # K2: divisions change inside a measure at a time without a TimePoint: the exporter does not split there
-    ctx.matchers["C03-K2"] = lambda r: (r.get("kind") in ("O1", "O2", "O3", "model", "O1-coq")
+    ctx.matchers["C03-K2"] = lambda r: (r.get("kind") in ("O1", "O2", "O3", "model", "O1-coq", "O1-coq-measure")
                                         and any(nopoint_changes(ps) for ps in spec_parts(r)))
     # K3: fermata on the right barline of a measure that is not the last: written on both sides
     ctx.matchers["C03-K3"] = lambda r: (((r.get("kind") == "O2" and "barline_fermatas" in r.get("what", "")) or
@@ -1133,7 +1281,7 @@ def run(ctx):
                        "voices are compared by O2 only for scores whose voices are sequential (otherwise the exporter must re-assign; the new voices are checked against the model)"]
     register_matchers(ctx)
     ok, why = ctx.coq_props(expect_min=5)
-    n_scores = 150 if ctx.tier == "quick" else 2500
+    n_scores = 300 if ctx.tier == "quick" else 4000
     mcases, pcases = [], []
     nviol = 0
     fixed = corpus_specs()
@@ -1168,24 +1316,49 @@ def run(ctx):
                 r = ctx.violation("%s: %s" % (k, txt2), {"kind": k, "what": txt2, "spec": small})
                 if r != "known":
                     nviol += 1
+        if o.unlisted_diffs:
+            ctx.count("not judged: scores where an attribute the statement does not list (notehead, grace type, grace-run link) differs after load")
+        if o.unaligned:
+            ctx.count("coq:parts_without_measure_cases (written measures/divisions segments not alignable with the score)", o.unaligned)
         if not o.problems:
             mcases.extend((spec, pid, mi, c) for (pid, mi, c) in o.measure_cases)
             pcases.extend((spec, pid, c) for (pid, c) in o.part_cases)
     ctx.count("coq:measure_cases", len(mcases))
     ctx.count("coq:part_cases", len(pcases))
     if ok:
+        imp = "From PV Require Import Model.C03."
         try:
-            failing = ctx.coq_failing("meas", "From PV Require Import Model.C03.", "", [c for (_, _, _, c) in mcases], "check_measure", shard=150)
+            both = ctx.coq_failing("meas", imp, "", [c for (_, _, _, c) in mcases], "check_measure_both", shard=150)
+            # separate the two questions on the cases where the conjunction is false
+            spec_local = ctx.coq_failing("measspec", imp, "", [mcases[i][3] for i in both], "spec_measure_b", shard=150) if both else []
         except RuntimeError as ex:
-            failing = None
+            both = None
             ctx.obligation("correspondence (a): model evaluation", False, str(ex)[-800:])
             ctx.violation("Coq could not evaluate the model on the measure cases: " + str(ex)[-600:], {"error": str(ex)[-1500:]}, no_input=True)
-        if failing is not None:
-            ctx.obligation("correspondence (a): lin_measure (Model/C03.v) = written element stream on %d measures" % len(mcases), not failing, failing[:5])
-            for i in failing[:4]:
+        if both is not None:
+            spec_fail = [both[j] for j in spec_local]
+            drift = [i for i in both if i not in set(spec_fail)]
+            ctx.obligation("correspondence (a-spec): the Coq reader interp places every note of the score's measure at its onset with its "
+                           "duration and ends at the measure end, on the written stream of %d measures (spec_measure_b)" % len(mcases),
+                           not spec_fail, spec_fail[:5])
+            for i in spec_fail[:4]:
                 spec, pid, mi, c = mcases[i]
-                ctx.violation("model (a): the written element stream of part %s measure index %d is not the model's linearisation" % (pid, mi),
-                              {"kind": "model", "part": pid, "measure_index": mi, "spec": spec, "coq_case": c[:4000]})
+                ctx.violation("O1 (Coq reader, one measure): read by the independent interpreter the written measure index %d of part %s does "
+                              "not place the score's notes at their onsets with their durations / does not have the measure's extent" % (mi, pid),
+                              {"kind": "O1-coq-measure", "part": pid, "measure_index": mi, "spec": spec, "coq_case": c[:4000]})
+            # the tie of the PROVED model to the code: exact document order.  Not a demand of the property (another
+            # document order / voice numbering that denotes the same notes is as good), so a mismatch alone is no
+            # violation; it is recorded as a failed obligation: the theorems then describe an algorithm that is no
+            # longer the exporter's, and only the evaluated checks (a-spec, b, O1-O3) speak for that tree.
+            ctx.obligation("correspondence (a-model): lin_measure (Model/C03.v) = written element stream, element for element, and every "
+                           "voice sequential after re-assignment, on %d measures (check_measure)" % len(mcases), not both,
+                           {"measures_where_only_the_document_order_differs": drift[:5], "measures_failing_the_spec": spec_fail[:5]})
+            ctx.count("coq:measures_equal_to_model_stream", len(mcases) - len(both))
+            if drift:
+                ctx.count("coq:measures_model_drift_only", len(drift))
+                ctx.extra["model_drift"] = ("on %d of %d measures the exporter's element stream is not the model's lin_measure although it denotes "
+                                            "the same notes: the proofs about lin_measure no longer describe this tree's exporter" % (len(drift), len(mcases)))
+                ctx.log("MODEL-DRIFT (no violation): %d of %d measures written in another document order than Model/C03.v lin_measure" % (len(drift), len(mcases)))
         try:
             failing = ctx.coq_failing("part", "From PV Require Import Model.C03.", "", [c for (_, _, c) in pcases], "check_part", shard=40)
         except RuntimeError as ex:
